@@ -15,6 +15,10 @@ use minidump::MinidumpModule;
 
 pub struct Cfi;
 
+/// `cfi cw …` cases: the real `CfiStackWalker` driven call by call (see the module docs there)
+#[path = "cfi_cw.rs"]
+mod cw;
+
 // ------------------------------------------------------------------------------------ case
 
 #[derive(Clone, Debug, Default)]
@@ -1220,6 +1224,15 @@ impl Engine for Cfi {
             emit(render(&c));
             made += 1;
         }
+        // the real CfiStackWalker<C>, call by call, on all seven context kinds (`cfi cw` cases)
+        cw::gen_directed(emit);
+        let ncw = match tier {
+            Tier::Quick => 60_000,
+            Tier::Thorough => 600_000,
+        };
+        for _ in 0..ncw {
+            emit(cw::gen_case(rng));
+        }
         for i in 0..nrand {
             if i % 40 == 1 {
                 emit(self.gen_deep_expr(rng));
@@ -1232,6 +1245,9 @@ impl Engine for Cfi {
     }
 
     fn exec(&self, case: &str) -> ImplResult {
+        if case.starts_with("cfi cw ") {
+            return cw::exec(case);
+        }
         let mut res = ImplResult::default();
         let Some(c) = parse_case(case) else {
             res.out = "bad-op".into();
@@ -1370,6 +1386,9 @@ impl Engine for Cfi {
     }
 
     fn shrink(&self, case: &str, still_fails: &dyn Fn(&str) -> bool) -> String {
+        if case.starts_with("cfi cw ") {
+            return cw::shrink(case, still_fails);
+        }
         let Some(mut c) = parse_case(case) else { return case.to_string() };
         let toks = |r: &[u8]| -> Vec<String> {
             String::from_utf8_lossy(r).split_ascii_whitespace().map(|s| s.to_string()).collect()
